@@ -959,10 +959,12 @@ def namespace_paths(doc):
         for d in decls or []:
             if isinstance(d, dict) and isinstance(d.get("decl"), str) and d["decl"].split()[:1] == ["namespace"]:
                 name = d["decl"].split()[1]
-                flat = (d.get("options") or {}).get("F_flatten_namespace", flat_default)
+                o = d.get("options") or {}
+                flat = o.get("F_flatten_namespace", o.get("flatten_namespace", flat_default))
                 out.append((scope + [name], bool(flat)))
                 walk(d.get("declarations"), scope + [name], flat)
-    walk(doc.get("declarations"), [], (doc.get("options") or {}).get("F_flatten_namespace", False))
+    o = doc.get("options") or {}
+    walk(doc.get("declarations"), [], o.get("F_flatten_namespace", o.get("flatten_namespace", False)))
     return out
 
 
